@@ -42,15 +42,18 @@ TPick == /\ IsEvent("Pick") /\ phase = "score"
          /\ picked' = Append(picked, Ev.j) /\ rows' = Append(rows, <<>>)
          /\ UNCHANGED <<N, labeled, mode, S, M, bs0, kind, bs, cand, width, score, phase>>
 
+\* the row clauses (C02) come first: a batch defect (C01, checked on Pick events by its own check)
+\* must not hide a wrong utility row
 TStep == /\ IsEvent("Step") /\ phase = "score"
-         /\ IndexClauses(Ev.j)
          /\ C("row-width", Len(Ev.row) = width)
          /\ C("nan-exactly-at-unavailable",
                \A k \in 1..width : Ev.row[k] = NaN <=> k \notin Selectable)
+         /\ C("index-in-range", Ev.j \in 1..width)
          /\ C("chosen-is-number", Ev.row[Ev.j] # NaN)
          /\ IF kind = "max"
             THEN C("chosen-attains-row-maximum", Ev.j \in ArgmaxSet(Ev.row))
             ELSE C("chosen-has-positive-mass", Ev.row[Ev.j] > 0)
+         /\ IndexClauses(Ev.j)
          /\ picked' = Append(picked, Ev.j) /\ rows' = Append(rows, Ev.row)
          /\ UNCHANGED <<N, labeled, mode, S, M, bs0, kind, bs, cand, width, score, phase>>
 
